@@ -235,6 +235,10 @@ def bounded(iterable, expected, what="iteration"):
     hold (a cycle, a generator that never ends) is a violation, not a hang."""
     cap = 4 * expected + 64
     out = []
+    try:
+        iterable = iter(iterable)
+    except TypeError as exc:  # raised by the interpreter: __iter__ returned a non-iterator
+        raise Violation("iteration", what, "TypeError: %s" % exc, "an iterator")
     for item in iterable:
         out.append(item)
         if len(out) > cap:
